@@ -235,7 +235,7 @@ class StructureFnCall:
                 "layout_nodes": nodes_ok(at(result, 0))}
 
 
-@contract(CLI + ".run", props=["C16", "C17"], abstract=True)
+@contract(CLI + ".run", props=["C16", "C17"], abstract=True, abstract_calls=["generate"])
 class Run:
     """C17: the output file is opened only after the complete text exists, so every failure leaves it untouched and prints nothing;
     C16: what is written with -o is exactly the text that would have been returned for printing (header + generated code)."""
